@@ -24,6 +24,20 @@ CHECKS = {
             "deterministic simulation: seeded tree/fault search vs. layered-lookup reference model"),
     "C11": ("exploration", "seeded API histories (create/set/get/get-default/list, refusal shapes, four constructors, growth past the pre-allocated entries) executed against the real library in lock-step with an ordered-map reference model under seeded heap fill", "6 C11",
             "deterministic simulation: seeded API histories vs. ordered-map reference model"),
+    "C06": ("fault_enumeration", "the simulator is the caller's callback: the veto is injected at every consulted file in turn (complete per generated tree) and at seeded subsets, through all four callback entry points; the recorded event history of each call (callback vs. fopen order, path sequence, data pointer) and the out-pointers are judged", "6 C06",
+            "deterministic simulation: single-fault enumeration of callback vetoes, event-history oracle"),
+    "C07": ("exploration", "seeded setter histories and parsed 5.1 files written through the real file layer and read back under seeded short reads and heap fill; before/after dumps compared by the equality of DESIGN.md 5.4", "6 C07",
+            "deterministic simulation: seeded histories, write/read-back through the simulated file layer"),
+    "C10": ("exploration", "seeded histories of read-only calls on parsed/built/merged objects; the full dump (listing, string+extended getters, tags, path, written bytes) is compared with the initial dump after every single step", "6 C10",
+            "deterministic simulation: seeded query histories with a full-state invariant after every step"),
+    "C12": ("exploration", "all six layered-read entry points executed on the same seeded tree in one run; pairwise differential, comparison with model M5 (D7 recognised), history members vs. independent single-file reads, fold of the history vs. merged result", "6 C12",
+            "deterministic simulation: differential between entry points + reference model on seeded trees"),
+    "C13": ("fault_enumeration", "one malformed line injected at every line position of a seeded 5.1 file in turn (complete per file), read alone or as any member of a tree through all eight entry points after a stale-location history; expected (code, path, line) known by construction", "6 C13",
+            "deterministic simulation: single-fault enumeration of malformed lines, expectation by construction"),
+    "C16": ("fault_enumeration", "exactly one consulted file made offending (owner / group / symlink) at every position in turn for every active rule, plus seeded multi-offender assignments, through all eight entry points, with setter/reset histories; restricted, reset and unrestricted reads compared", "6 C16",
+            "deterministic simulation: single-fault enumeration of file attributes vs. restriction model"),
+    "C20": ("fault_enumeration", "a failure of seeded kind (veto, owner, group, symlink, malformed, unreadable, vanished, read error) injected at every consulted file in turn, plus API histories, unknown options, missing files; allocation ledger (link-time wrapped allocator family + scandir/getline/asprintf results + streams), out-pointer validity, two heap fill bytes per plan, ASan", "6 C20",
+            "deterministic simulation: fault enumeration with allocation-ledger conservation and fill-byte differential"),
 }
 
 PENDING = ["C04", "C06", "C07", "C10", "C12", "C13", "C16", "C18", "C19", "C20"]
